@@ -69,6 +69,19 @@ class Consts:
         self.defs = {}
         for m in re.finditer(r"^#define\s+([A-Z][A-Z0-9_]*)\s+(\d+)\s*$", src, re.M):
             self.defs[m.group(1)] = int(m.group(2))
+        # object-like macros defined as arithmetic over other macros, e.g.
+        # `#define X (PACKET_LENGTH_MAX - AEAD_TAG_LENGTH)`: resolve to a fixpoint
+        pending = dict(re.findall(r"^#define\s+([A-Z][A-Z0-9_]*)\s+([A-Za-z0-9_+\-*() ]+?)\s*(?:/\*.*)?$", src, re.M))
+        for _ in range(8):
+            for name, expr in list(pending.items()):
+                if name in self.defs:
+                    del pending[name]
+                    continue
+                try:
+                    self.defs[name] = int(eval(expr, {"__builtins__": {}}, dict(self.defs)))
+                    del pending[name]
+                except Exception:  # noqa: refers to something not resolved (yet)
+                    pass
         for n in self.NAMES:
             if n not in self.defs:
                 raise core.HarnessError("cannot parse #define %s from %s" % (n, path))
@@ -85,7 +98,7 @@ class Consts:
         self.HP_SCRATCH = self._array(src, "HeaderProtectionObject", "buffer")
 
     def _array(self, src, struct_name, field):
-        m = re.search(r"typedef\s+struct\s*\{(.*?)\}\s*%s\s*;" % struct_name, src, re.S)
+        m = re.search(r"typedef\s+struct\s*\{([^{}]*)\}\s*%s\s*;" % struct_name, src, re.S)
         if not m:
             raise core.HarnessError("cannot find struct %s in _crypto.c" % struct_name)
         a = re.search(r"unsigned\s+char\s+%s\s*\[([^\]]+)\]" % field, m.group(1))
